@@ -26,6 +26,7 @@ use std::time::Duration;
 
 mod fanout;
 mod keepalive;
+mod publife;
 mod replife;
 mod reqlife;
 mod reqrep;
@@ -415,6 +416,7 @@ fn main() {
             Some("shutdown") => shutdown::cmd_shutdown(args.clone()).await,
             Some("reqlife") => reqlife::cmd_reqlife(args.clone()).await,
             Some("replife") => replife::cmd_replife(args.clone()).await,
+            Some("publife") => publife::cmd_publife(args.clone()).await,
             Some("keepalive") => keepalive::cmd_keepalive(args.clone()).await,
             _ => Err(anyhow!("usage: e2e pubsub|reqrep|server|stall|tls|keepalive --out T ...")),
         }
